@@ -205,3 +205,53 @@ func TestC13_FreeCalls(t *testing.T) {
 }
 
 var _ = fmt.Sprint
+
+// c13URLCase: URL text assembled by the native fuzz target around "secret=<base32 of Key>".
+type c13URLCase struct {
+	Before string `json:"before"`
+	After  string `json:"after"`
+	Key    []byte `json:"key"`
+}
+
+var c13URL = newPart("C13", "fuzz-urls",
+	"native fuzzing: arbitrary text before and after a 'secret=<base32>' parameter, parsed by net/url and handed to ParseOTPAuthURL; oracle: an error that comes back contains no rendering of the secret; non-trivial = the URL parsed and the call failed",
+	func(c c13URLCase) verdict {
+		text := ref.B32(c.Key)
+		u, err := url.Parse(c.Before + "secret=" + text + c.After)
+		if err != nil || u == nil {
+			return ok(false, "unparsable-by-net/url")
+		}
+		// "the secret" of a URL is the value of its secret parameter. If the fuzzer's surroundings moved the text somewhere
+		// else (into the host, the label, another parameter's value, the fragment) an error that echoes that other part
+		// does not disclose a secret: not classified.
+		q := u.Query()
+		if len(q["secret"]) == 0 {
+			return ok(false, "secret-not-a-parameter")
+		}
+		for _, v := range q["secret"] {
+			if v != text {
+				return ok(false, "secret-parameter-changed")
+			}
+		}
+		q.Del("secret")
+		rest := *u
+		rest.RawQuery = q.Encode()
+		needles := secretNeedles([]string{text}, c.Key)
+		hay := rest.String() + "\x00" + rest.Scheme + "\x00" + rest.Host + "\x00" + rest.Path + "\x00" + rest.Fragment + "\x00" + rest.Opaque
+		for k, vs := range q {
+			hay += "\x00" + k + "\x00" + strings.Join(vs, "\x00")
+		}
+		for _, n := range needles {
+			if strings.Contains(hay, n) {
+				return ok(false, "secret-text-elsewhere")
+			}
+		}
+		_, perr := otp.ParseOTPAuthURL(u)
+		if perr == nil {
+			return ok(false, "no-failure")
+		}
+		if e := leak(perr, needles, nil); e != "" {
+			return bad(true, []string{"failed"}, "ParseOTPAuthURL(%q): %s", u.String(), e)
+		}
+		return ok(true, "failed")
+	})
